@@ -1,3 +1,4 @@
 import PysamlModel.Props.PyTieC05
 #print axioms PyTie.validate_on_or_after_refines
 #print axioms PyTie.validate_before_refines
+#print axioms PyTie.authn_statement_ok_refines
